@@ -82,7 +82,8 @@ type Node struct {
 type Doc struct {
 	W, H *Val // dimension values or nil
 	VB   *[4]float64
-	PAR  bool // preserveAspectRatio="none" is written
+	PAR  bool   // preserveAspectRatio="none" is written
+	PARText string // any other preserveAspectRatio value ("" = attribute absent)
 	Root *Node
 	// generator bookkeeping
 	Features map[string]bool
@@ -209,6 +210,8 @@ func (d *Doc) SVG() string {
 	}
 	if d.PAR {
 		head += ` preserveAspectRatio="none"`
+	} else if d.PARText != "" {
+		head += ` preserveAspectRatio="` + d.PARText + `"`
 	}
 	d.Root.svg(&sb, head)
 	return sb.String()
@@ -276,7 +279,7 @@ func (v Val) Proto() string {
 			// the name as parseTransform lexes it: the text between ')' and '(' trimmed and lower-cased
 			name := f.Name
 			if i > 0 {
-				name = strings.TrimSpace(v.FSep + name)
+				name = strings.Trim(v.FSep+name, " \t\n\r,") // commas between transforms are separators (889f8da)
 			}
 			s += " " + strings.ReplaceAll(strings.ToLower(name), " ", "?") + " " + hexList(f.Args)
 		}
@@ -410,6 +413,12 @@ func (d *Doc) Proto(lens []float64) string {
 	} else {
 		sb.WriteString(" V " + hc.Hs(d.VB[:]...))
 	}
+	// the preserveAspectRatio attribute as written (spaces cannot travel in a token)
+	par := d.PARText
+	if d.PAR {
+		par = "none"
+	}
+	sb.WriteString(" " + tok(strings.ReplaceAll(par, " ", "+")))
 	sb.WriteString(" " + attrsProto(d.Root.Attrs))
 	fmt.Fprintf(&sb, " %d", len(d.Root.Kids))
 	for _, k := range d.Root.Kids {
